@@ -7,7 +7,10 @@
 (* variant each; the driver binds slot k of a font to the k-th (glyph, text) *)
 (* pair of that font's pool.  Random walks (seeded by TLC's -seed) revisit   *)
 (* slots (remembered codes); sweeps walk through fresh slots up to and       *)
-(* beyond the 256 codes of a simple font.                                    *)
+(* beyond the 256 codes of a simple font (font 1 is the one swept).  Every   *)
+(* behaviour ends by showing, font by font, all pairs encoded so far (op     *)
+(* "showall": Show of the font's whole table), so that every allocated code  *)
+(* is read back.                                                             *)
 EXTENDS Naturals, Sequences, TLC, Json, IOUtils
 CONSTANTS NF,       \* fonts per document
           NSlots,   \* glyph slots a random walk draws from
@@ -24,12 +27,15 @@ Item(j) == [slot |-> Rnd(NSlots, j), tv |-> Rnd(NTexts, j)]
 RandomStep(i) == LET f == Rnd(NF, i)
                  IN IF Rnd(3, i) = 1 THEN [op |-> "enc", f |-> f, items |-> <<Item(i)>>]
                     ELSE [op |-> "show", f |-> f, items |-> [j \in 1..Rnd(MaxShow, i) |-> Item(j)]]
-Walk(n) == [kind |-> "walk", steps |-> [i \in 1..Steps |-> RandomStep(i)]]
+ShowAll == [f \in 1..NF |-> [op |-> "showall", f |-> f, items |-> <<>>]]
+Walk(n) == [kind |-> "walk", steps |-> [i \in 1..Steps |-> RandomStep(i)] \o ShowAll]
 \* a sweep: one font gets fresh slots in order, eight per step, the other fonts interleave at random
 SweepStep(i, f) == IF i % 3 = 0 THEN RandomStep(i)
                    ELSE [op |-> IF i % 3 = 1 THEN "show" ELSE "enc", f |-> f,
                          items |-> [k \in 1..8 |-> [slot |-> ((8 * i + k) % SweepTo) + 1, tv |-> 1 + (i % NTexts)]]]
-Sweep(n) == LET f == Rnd(NF, n) IN [kind |-> "sweep", steps |-> [i \in 1..((SweepTo * 3) \div 16 + 4) |-> SweepStep(i, f)]]
+\* "fill": Encode fresh pairs of the font until it has no code left (EncodeNew steps; simple fonts)
+Sweep(n) == [kind |-> "sweep", steps |-> [i \in 1..((SweepTo * 3) \div 16 + 4) |-> SweepStep(i, 1)]
+                                          \o <<[op |-> "fill", f |-> 1, items |-> <<>>]>> \o ShowAll]
 ASSUME ndJsonSerialize(IOEnv.OUT, [i \in 1..(NWalks + NSweeps) |-> IF i <= NWalks THEN Walk(i) ELSE Sweep(i)])
 VARIABLE x
 Init == x = 0
